@@ -326,6 +326,11 @@ func pickPatLen(c *core.Ctx) int {
 
 func pickOpts(c *core.Ctx) gen.PatOpts {
 	r := c.Rng
+	if r.Intn(12) == 0 {
+		// written almost entirely with classes, negations and marks: a few dozen positions take
+		// several hundred characters of pattern text
+		return gen.PatOpts{Class: 950, Neg: 300, Oblig: 300}
+	}
 	switch r.Intn(5) {
 	case 0: // plain bases
 		return gen.PatOpts{LowCx: 200}
